@@ -7,7 +7,7 @@ LEVEL = "model_checking"
 BUDGET = {"quick": 240, "thorough": 2400}
 BOUNDS = {"quick": "12 base shapes (absolute / rooted / rootless / empty path, trailing slash, empty and escaped segments with symbolic hex digits, "
                    "one free hole) x segment arguments of <= 2 free code points (no lone surrogates)",
-          "thorough": "segment arguments of <= 3 free code points; bases with two free holes"}
+          "thorough": "segment arguments of <= 3 free code points (<= 2 on the bases that have free holes themselves)"}
 ASSUMPTIONS = ["segment arguments exclude lone surrogates (dropped by the quoter) ", "base paths and arguments longer than the bound are outside the claim",
                "the clause 'u / s has name s' is asserted for s without '/', not a dot segment and not empty, as the statement says",
                "alternative spellings joinpath(a, b) / joinpath(a).joinpath(b) / u / 'a/b' are compared for non-empty a, b that do not start with '/'"]
@@ -166,11 +166,15 @@ def families(tier):
         for sn, ssk in segs:
             if q and bn in heavy and sn != "free1":
                 continue
+            if not q and bn in heavy and sn == "free3":
+                continue
             fams.append(Family("child/%s/%s" % (bn, sn), h_child, dict(base_sk=bsk, seg_sk=ssk)))
         if not (q and bn in heavy):
             fams.append(Family("spellings/%s" % bn, h_spellings, dict(base_sk=bsk, n=1)))
         for n in ((1, 2) if q else (1, 2, 3)):
             if q and bn in heavy and n > 1:
+                continue
+            if not q and bn in heavy and n > 2:
                 continue
             fams.append(Family("with_name/%s/n=%d" % (bn, n), h_with_name, dict(base_sk=bsk, n=n)))
         for sn, ssk in [("dot1", [".", NS]), ("dot2", [".", NS, NS]), ("any2", [NS, NS]), ("empty", [])]:
